@@ -44,7 +44,7 @@ def gen_case(rng, tier):
     asyn = rng.choice([1, 1, 2, 3])
     notif = rng.choice([1, 2, 3])
     cap = rng.choice([4, 7, 16, 33, 64, 1000])
-    mx = rng.choice([8, 16, 64, 200])
+    mx = rng.choice([8, 16, 64, 200, 130, 130])
     ops = [f"cfg sync={sync} async={asyn} notif={notif} cap={cap} max={mx}"]
     if rng.random() < 0.95:
         ops += ["open", "events"]
@@ -53,6 +53,9 @@ def gen_case(rng, tier):
 
     def size():
         r = rng.random()
+        edge = [e for e in (127, 128, 129, 16383, 16384, 16385) if e <= mx + 1]
+        if edge and r < 0.12:
+            return rng.choice(edge)                 # where the varint length prefix grows
         if r < 0.6:
             return rng.choice([3, 4, 5, 8])
         if r < 0.9:
